@@ -255,7 +255,10 @@ fn run_all(ctx: &mut Ctx) {
     let cases = crate::c01::all_cases(tier);
     let stride = tier.pick(5, 3);
     let nsnip_cfgs = tier.pick(2, cfgs.len());
-    let snips = snippets(tier);
+    let mut snips = snippets(tier);
+    // the bounded-integer lattice (downcast between ranges in every relative position, constrain, trim, add /
+    // sub / mul): error-free sources that reach instantiations no corpus program uses
+    snips.extend(crate::bounded::sources(tier).into_iter().map(|(name, code)| crate::exec::Snip { name, code, plain: None, sierra: None }));
     for (ci, chunk) in cfgs.chunks(chunk_len).enumerate() {
         for (k, case) in cases.iter().enumerate() {
             // quick: every fifth program of the (already exhaustive) C01 space under all corner configs; thorough: every third
